@@ -8,7 +8,7 @@ CONSTANTS
   MaxOps = 1
   OpTypes = {"mutation"}
   FieldAlpha <- AlphaCsM
-  Aliases = {""}
+  Aliases = {"", "z"}
   Conds = {""}
   DirOpts <- NoDirs
   ArgOpts <- ArgOptsNone
